@@ -63,7 +63,7 @@ def _map_time_agg_error(msg: str, msg_lower: str) -> RunTimeError:
 
 
 def _map_query_error(error: duckdb.Error, sql_query: str) -> Exception:
-    """Map a DuckDB query execution error to a VTL exception.
+    """Map a DuckDB query execution error to a VTL exception (always a VTL exception).
 
     Patterns:
     - Conversion errors on timestamp/date → RunTimeError 2-1-19-8
@@ -92,6 +92,11 @@ def _map_query_error(error: duckdb.Error, sql_query: str) -> Exception:
     if "vtl error 2-1-19-16" in msg_lower:
         op = "daytoyear" if "daytoyear" in msg_lower else "daytomonth"
         return RunTimeError("2-1-19-16", op=op)
+
+    # SDMX Gregorian output format cannot express S/Q/W periods (check before 2-1-19-1 prefix match)
+    if "vtl error 2-1-19-21" in msg_lower:
+        period = msg.rsplit("got ", 1)[-1].strip() if "got " in msg else "unknown"
+        return RunTimeError("2-1-19-21", period=period)
 
     # time_agg: period indicator too coarse for target
     if "vtl error 2-1-19-1" in msg_lower:
@@ -145,8 +150,9 @@ def _map_query_error(error: duckdb.Error, sql_query: str) -> Exception:
     if "cannot take logarithm of a negative number" in msg_lower:
         return RunTimeError("2-1-15-3", op="log", value="negative")
 
-    # Return original error if no mapping found
-    return error
+    # No specific mapping: still surface a VTL error, never the raw DuckDB exception
+    detail = msg.splitlines()[0] if msg else type(error).__name__
+    return RunTimeError("2-1-1-1", op="query execution", error=detail)
 
 
 def _format_timestamp(ts: Any) -> str:
@@ -181,6 +187,8 @@ def _round_significant(value: float, sig_digits: int) -> float:
 
     if value == 0.0:
         return 0.0
+    if math.isinf(value) or math.isnan(value):
+        return value
     d = math.ceil(math.log10(abs(value)))
     return round(value, sig_digits - d)
 
@@ -396,6 +404,30 @@ def fetch_result(
     representation: Optional[TimePeriodRepresentation] = None,
     output_format: Literal["csv", "parquet"] = "csv",
 ) -> Union[Dataset, Scalar]:
+    """Fetch a result (see ``_fetch_result_impl``), mapping DuckDB errors to VTL errors."""
+    try:
+        return _fetch_result_impl(
+            conn=conn,
+            result_name=result_name,
+            output_folder=output_folder,
+            output_datasets=output_datasets,
+            output_scalars=output_scalars,
+            representation=representation,
+            output_format=output_format,
+        )
+    except duckdb.Error as e:
+        raise _map_query_error(e, f"fetch {result_name}") from e
+
+
+def _fetch_result_impl(
+    conn: duckdb.DuckDBPyConnection,
+    result_name: str,
+    output_folder: Optional[Path],
+    output_datasets: Dict[str, Dataset],
+    output_scalars: Dict[str, Scalar],
+    representation: Optional[TimePeriodRepresentation] = None,
+    output_format: Literal["csv", "parquet"] = "csv",
+) -> Union[Dataset, Scalar]:
     """
     Fetch a result from DuckDB and return as Dataset or Scalar.
 
@@ -531,10 +563,7 @@ def execute_queries(
             _verif.event("exec", result_name, statement_num)
             conn.execute(f'CREATE TABLE "{result_name}" AS {sql_query}')
         except duckdb.Error as e:
-            mapped = _map_query_error(e, sql_query)
-            if mapped is not e:
-                raise mapped from e
-            raise
+            raise _map_query_error(e, sql_query) from e
         except Exception:
             raise
 
